@@ -116,12 +116,72 @@ def run(ctx):
         for need in ("net.trafo.tap_pos", "net.trafo.id_characteristic_table",
                      "net.trafo_characteristic_table.voltage_ratio" if i < 2 else "net.trafo_characteristic_table.angle_deg"):
             ctx.ob(R3, f"{BB}::_calc_tap_from_dataframe::{nm}:{need}", need in d, f"{nm} depends on {need}", "pandapower/build_branch.py")
+    rule_table_masks(ctx)
+
+
+def rule_table_masks(ctx):
+    """which transformers go through the table and with which sign"""
+    from ppsa.astutil import names_in
+    R = "TABLE-MASK"
+    ctx.rule(R, "_calc_tap_from_dataframe: the masks of the formula-based tap changers (tap_ideal, tap_complex) are both restricted to "
+                "transformers without a table (tap_no_table), so a table transformer gets the table values only; the table angle is applied "
+                "with the direction of the tapped side (assignment of `shift` depends on `direction`); _get_vk_values_from_table looks up "
+                "every transformer with tap_dependency_table (mask independent of the tap position, like the ratio / angle lookup)")
+    fi = ctx.repo.func(f"{BB}:_calc_tap_from_dataframe")
+    for name in ("tap_ideal", "tap_complex"):
+        # (the legacy branch for nets without tap_changer_type has no table at all: only the assignments from tap_changer_type count)
+        sts = [n for n in ast.walk(fi.node) if isinstance(n, ast.Assign) and len(n.targets) == 1 and isinstance(n.targets[0], ast.Name) and n.targets[0].id == name
+               and "tap_changer_type" in names_in(n.value)]
+        if not sts:
+            ctx.fail(f"_calc_tap_from_dataframe: assignment of {name} not found")
+        for st in sts:
+            ok = "tap_no_table" in names_in(st.value)
+            ctx.ob(R, f"{BB}::_calc_tap_from_dataframe::{name}", ok,
+                   f"{name} restricted to transformers without a table" if ok else
+                   f"`{norm(st, 90)}` also selects table transformers: they get the table angle plus the formula angle", fi.loc(st))
+    # table shift sign
+    loops = [n for n in ast.walk(fi.node) if isinstance(n, ast.For) and "direction" in {x.id for x in ast.walk(n.target) if isinstance(x, ast.Name)}]
+    k = 0
+    for lp in loops:
+        shifts = []
+        def scan(body, guarded):
+            for st in body:
+                if isinstance(st, ast.If):
+                    g = guarded or "direction" in names_in(st.test)
+                    scan(st.body, g)
+                    scan(st.orelse, g)
+                elif isinstance(st, (ast.For, ast.While)):
+                    scan(st.body, guarded)
+                elif isinstance(st, ast.Assign) and len(st.targets) == 1 and isinstance(st.targets[0], ast.Name) and st.targets[0].id == "shift" \
+                        and "shift_mapping" in names_in(st.value):
+                    shifts.append((st, guarded or "direction" in names_in(st.value)))
+        scan(lp.body, False)
+        for st, dep in shifts:
+            k += 1
+            ctx.ob(R, f"{BB}::_calc_tap_from_dataframe::table-shift#{k}", dep,
+                   "table angle assigned under / with the direction of the tapped side" if dep else
+                   f"`{norm(st, 90)}` does not depend on `direction`: a tap changer on the lv side gets the table angle with the hv sign", fi.loc(st))
+    if k < 1:
+        ctx.fail("_calc_tap_from_dataframe: assignment of the table shift not found")
+    fv = ctx.repo.func(f"{BB}:_get_vk_values_from_table")
+    ms = [n for n in ast.walk(fv.node) if isinstance(n, ast.Assign) and len(n.targets) == 1 and isinstance(n.targets[0], ast.Name) and n.targets[0].id == "mask"]
+    if not ms:
+        ctx.fail("_get_vk_values_from_table: mask not found")
+    for st in ms:
+        nm = names_in(st.value)
+        ok = "tap_dependency_table" in nm and not (nm & {"tap_pos", "tap_neutral", "tap_diff"})
+        ctx.ob(R, f"{BB}::_get_vk_values_from_table::mask", ok,
+               "vk / vkr looked up for every table transformer" if ok else
+               f"`{norm(st, 90)}` excludes transformers by tap position: the ratio / angle lookup and the vk / vkr lookup no longer cover the same rows", fv.loc(st))
 
 
 def variants(repo):
     bb = "pandapower/build_branch.py"
     V = Variant
     return [
+        V("ideal formula also for table transformers", bb, replace_once('tap_ideal = np.logical_and(tap_changer_type == "Ideal", tap_no_table)', 'tap_ideal = tap_changer_type == "Ideal"'), "TABLE-MASK"),
+        V("table angle without the lv sign", bb, in_function("_calc_tap_from_dataframe", lambda s: s.replace("                        shift = [-shift_mapping.get(key, 1) for key in id_step]", "                        shift = [shift_mapping.get(key, 1) for key in id_step]", 1).replace("                    if direction == 1:\n                        ratio = [voltage_mapping.get(key, 1) for key in id_step]\n                        shift = [shift_mapping.get(key, 1) for key in id_step]\n                    else:\n                        ratio = [voltage_mapping.get(key, 1) for key in id_step]\n                        shift = [shift_mapping.get(key, 1) for key in id_step]\n", "                    ratio = [voltage_mapping.get(key, 1) for key in id_step]\n                    shift = [shift_mapping.get(key, 1) for key in id_step]\n", 1)), "table-shift"),
+        V("vk lookup skipped at the neutral position", bb, in_function("_get_vk_values_from_table", lambda s: s.replace("            mask = tap_dependency_table\n", "            mask = tap_dependency_table & (tap_pos != get_trafo_values(trafo_df, \"tap_neutral\"))\n", 1)), "_get_vk_values_from_table::mask"),
         V("vk lookup keyed by id only", bb, in_function("_get_vk_values_from_table", lambda s: s.replace("dict(zip(zip(filtered_df['id_characteristic'], filtered_df['step']), filtered_df[vk_var]))", "dict(zip(filtered_df['id_characteristic'], filtered_df[vk_var]))", 1)), "KEYCOLLAPSE"),
         V("ratio lookup keyed by id only", bb, in_function("_calc_tap_from_dataframe", lambda s: s.replace("dict(zip(zip(filtered_df['id_characteristic'], filtered_df['step']), filtered_df['voltage_ratio']))", "dict(zip(filtered_df['id_characteristic'], filtered_df['voltage_ratio']))", 1)), "KEYCOLLAPSE"),
         V("vk view write", bb, replace_once("            vk_value = vk_value.copy()\n", ""), "ALIASWRITE"),
